@@ -303,28 +303,142 @@ class Body:
                 if t.kind != "call" or blk.cleanup or t.d.get("t") is None:
                     continue
                 c = t.d.get("r") or t.d.get("f")
+                if (t.d.get("f") or "").endswith("future::Future::poll") and (t.d.get("r") or "").endswith("::{closure#0}") and t.d["r"][:-13] in new:
+                    if self._inline_async(blk, t.d["r"][:-13]):
+                        budget -= 1
+                    continue
                 if c not in new or c in prog._inlining or c == self.path:
                     continue
                 cal = prog.bodies.get(c)
                 if cal is None or cal.coroutine or cal.kind not in ("Fn", "AssocFn") or (c + "::{closure#0}") in prog.coroutine_paths:
                     continue
-                if len(cal.blocks) > 250 or cal.argc != len(t.d["args"]):
+                if len(cal.blocks) > 600 or cal.argc != len(t.d["args"]):
                     continue
                 self._splice(blk, cal)
                 prog.inlined.append((self.path, c))
                 budget -= 1
         finally:
             prog._inlining.discard(self.path)
+        if getattr(self, "frames", None):
+            self._devirtualize()
 
-    def _splice(self, blk, cal):
+    def _devirtualize(self):
+        """After inlining, a call through a function-pointer parameter whose argument was a named function (`helper(.., write::x)`
+        calling `format(..)`) is a direct call of that function: constant propagation over single-definition copies."""
+        defs = {}
+        for b in self._blocks:
+            for st in b.stmts:
+                if st.kind == "assign" and st.dest.is_local():
+                    defs.setdefault(st.dest.local, []).append(st)
+            if b.term.kind == "call" and b.term.d["d"].is_local():
+                defs.setdefault(b.term.d["d"].local, []).append(None)
+        for b in self._blocks:
+            t = b.term
+            if t.kind != "call" or "fp" not in t.d or t.d.get("f") or t.d.get("r"):
+                continue
+            o = t.d["fp"]
+            for _ in range(8):
+                if o is None:
+                    break
+                if o.is_const():
+                    fn_ = o.const.get("fn")
+                    if fn_:
+                        d = dict(t.d)
+                        d["f"] = d["r"] = self.prog.fix_path(fn_)
+                        d["rk"] = "item"
+                        b.term = Term("call", d, t.line, t.macros)
+                    break
+                if not o.place.is_local():
+                    break
+                dl = defs.get(o.place.local, [])
+                if len(dl) != 1 or dl[0] is None or dl[0].rv.get("k") not in ("use", "cast"):
+                    break
+                o = dl[0].rv["a"]
+
+    def _inline_async(self, pblk, k):
+        """`helper(args).await` where `helper` is a new async fn: the poll of the helper's future is replaced by the helper's coroutine
+        body (its own suspension points stay `yield`s, its return becomes `Poll::Ready(v)` flowing into the caller's Ready arm), the
+        captured parameters are bound where the future was created. Only the directly awaited form is handled (poll resolved to the
+        helper's coroutine and its future traced back to one creation call); anything else leaves the call opaque."""
+        prog = self.prog
+        cor_path = k + "::{closure#0}"
+        if k in prog._inlining or cor_path in prog._inlining or cor_path == self.path:
+            return False
+        outer = prog.bodies.get(k) or prog.absorbed.get(k)
+        cor = prog.bodies.get(cor_path) or prog.absorbed.get(cor_path)
+        if outer is None or cor is None or not cor.coroutine or len(cor.blocks) > 1500:
+            return False
+        # trace the polled future back to the call that created it
+        defs = {}
+        for b in self._blocks:
+            for st in b.stmts:
+                if st.kind == "assign" and st.dest.is_local():
+                    defs.setdefault(st.dest.local, []).append(("s", st, b))
+            if b.term.kind == "call" and b.term.d["d"].is_local():
+                defs.setdefault(b.term.d["d"].local, []).append(("c", b.term, b))
+        a0 = pblk.term.d["args"][0]
+        if a0.is_const():
+            return False
+        cur = a0.place.local
+        kblk = None
+        for _ in range(12):
+            dl = defs.get(cur, [])
+            if len(dl) != 1:
+                return False
+            kind, obj, b = dl[0]
+            if kind == "s":
+                rv = obj.rv
+                if rv["k"] == "ref" and all(x == "*" for x in rv["p"].proj):
+                    cur = rv["p"].local
+                elif rv["k"] == "use" and not rv["a"].is_const() and rv["a"].place.is_local():
+                    cur = rv["a"].place.local
+                else:
+                    return False
+            else:
+                f = obj.d.get("f") or ""
+                r = obj.d.get("r") or ""
+                if f == k or r == k:
+                    kblk = b
+                    break
+                if (f.endswith("Pin::new_unchecked") or f.endswith("IntoFuture::into_future")) and len(obj.d["args"]) == 1 and not obj.d["args"][0].is_const() and obj.d["args"][0].place.is_local():
+                    cur = obj.d["args"][0].place.local
+                else:
+                    return False
+        if kblk is None or kblk.term.d.get("t") is None or kblk.cleanup or len(kblk.term.d["args"]) != outer.argc:
+            return False
+        # parameter name -> argument (an async fn captures every parameter under its own name)
+        caps = {}
+        for nm, p_ in outer.dbg:
+            if p_.is_local() and 1 <= p_.local <= outer.argc:
+                caps[nm] = kblk.term.d["args"][p_.local - 1]
+        prog._inlining.add(cor_path)
+        try:
+            self._splice(pblk, cor, captures=caps, kblk=kblk)
+        finally:
+            prog._inlining.discard(cor_path)
+        prog.inlined.append((self.path, k))
+        return True
+
+    def _splice(self, blk, cal, captures=None, kblk=None):
         t = blk.term
         lo = len(self._local_tys)
         self._local_tys.extend(cal.local_tys)
         bo = len(self._blocks)
         ret_target = t.d["t"]
         dest = t.d["d"]
+        caplocal = {}
+        if captures is not None:
+            for nm in captures:
+                caplocal[nm] = len(self._local_tys)
+                self._local_tys.append("")
 
         def mp(p_):
+            if captures is not None and p_.local == 1 and p_.proj and p_.proj[0].startswith(".^"):
+                nm = p_.proj[0][2:]
+                if nm not in caplocal:
+                    caplocal[nm] = len(self._local_tys)
+                    self._local_tys.append("")
+                return Place(caplocal[nm], p_.proj[1:], p_.ty)
             return Place(p_.local + lo, p_.proj, p_.ty)
 
         def mo(o):
@@ -349,9 +463,20 @@ class Body:
                 out["ops"] = [mo(o) for o in rv["ops"]]
             return out
 
-        # arguments -> the callee's parameter locals
-        for k, a in enumerate(t.d["args"]):
-            blk.stmts.append(Stmt(Place(lo + 1 + k), {"k": "use", "a": a}, t.line, t.macros))
+        ready_arm = None
+        if captures is not None:
+            # captured parameters are bound where the future is created; the creation call itself disappears
+            kt = kblk.term
+            for nm, a in captures.items():
+                kblk.stmts.append(Stmt(Place(caplocal[nm]), {"k": "use", "a": a}, kt.line, kt.macros))
+            kblk.term = Term("goto", {"t": kt.d["t"], "false": False}, kt.line, kt.macros)
+            T = self._blocks[ret_target]
+            if T.term.kind == "switch" and len(T.stmts) == 1 and T.stmts[0].rv.get("k") == "discr" and T.stmts[0].rv["p"].is_local() and dest.is_local() and T.stmts[0].rv["p"].local == dest.local:
+                ready_arm = dict(T.term.d["ts"]).get(0)
+        else:
+            # arguments -> the callee's parameter locals
+            for k, a in enumerate(t.d["args"]):
+                blk.stmts.append(Stmt(Place(lo + 1 + k), {"k": "use", "a": a}, t.line, t.macros))
         blk.term = Term("goto", {"t": bo, "false": False}, t.line, t.macros)
         for cb in cal.blocks:
             stmts = [Stmt(mp(st.dest), mrv(st.rv) if st.kind == "assign" else dict(st.rv), st.line, st.macros, st.kind) for st in cb.stmts]
@@ -379,7 +504,10 @@ class Body:
                 d["t"] = ct.d["t"] + bo
             elif k == "yield":
                 d["t"] = ct.d["t"] + bo
-            if k == "return":
+            if k == "return" and captures is not None:
+                stmts.append(Stmt(dest, {"k": "agg", "ak": "enum", "adt": "std::task::Poll", "var": "Ready", "fields": ["0"], "ops": [Operand("move", Place(lo))]}, ct.line, ct.macros))
+                nt = Term("goto", {"t": ready_arm if ready_arm is not None else ret_target, "false": False}, ct.line, ct.macros)
+            elif k == "return":
                 stmts.append(Stmt(dest, {"k": "use", "a": Operand("move", Place(lo))}, ct.line, ct.macros))
                 nt = Term("goto", {"t": ret_target, "false": False}, ct.line, ct.macros)
             else:
@@ -392,12 +520,34 @@ class Body:
             dn = self.local_name(dest.local)
             if dn and not any(p_.is_local() and p_.local == lo for _, p_ in self._dbg):
                 self._dbg.append((dn, Place(lo)))
-        self._thread_returns(lo, dest, ret_target, bo, bo + len(cal.blocks))
         if not hasattr(self, "frames"):
             self.frames = []
-        self.frames.append({"ret": lo, "dest": dest, "target": ret_target, "callee": cal.path, "blocks": (bo, bo + len(cal.blocks))})
+        if captures is not None:
+            if ready_arm is not None:
+                self._thread_returns(lo, dest, ready_arm, bo, bo + len(cal.blocks), ready=True)
+            # locals holding the awaited value: copies of `poll_result@Ready.0`
+            al = set()
+            if dest.is_local():
+                grew = True
+                while grew:
+                    grew = False
+                    for b_ in self._blocks:
+                        for st in b_.stmts:
+                            if st.kind == "assign" and st.dest.is_local() and st.dest.local > self.argc and st.dest.local not in al and st.rv.get("k") == "use" and not st.rv["a"].is_const():
+                                src = st.rv["a"].place
+                                if (src.local == dest.local and src.proj == ("@Ready", ".0")) or (src.is_local() and src.local in al):
+                                    al.add(st.dest.local)
+                                    grew = True
+            self.frames.append({"ret": lo, "dest": dest, "target": ready_arm if ready_arm is not None else ret_target, "callee": cal.path, "blocks": (bo, bo + len(cal.blocks)), "aliases": al, "async": True})
+        else:
+            self._thread_returns(lo, dest, ret_target, bo, bo + len(cal.blocks))
+            self.frames.append({"ret": lo, "dest": dest, "target": ret_target, "callee": cal.path, "blocks": (bo, bo + len(cal.blocks))})
         for fr in getattr(cal, "frames", []):
-            self.frames.append({"ret": fr["ret"] + lo, "dest": mp(fr["dest"]), "target": fr["target"] + bo, "callee": fr["callee"], "blocks": (fr["blocks"][0] + bo, fr["blocks"][1] + bo)})
+            nf = {"ret": fr["ret"] + lo, "dest": mp(fr["dest"]), "target": fr["target"] + bo, "callee": fr["callee"], "blocks": (fr["blocks"][0] + bo, fr["blocks"][1] + bo)}
+            if fr.get("async"):
+                nf["async"] = True
+                nf["aliases"] = {a + lo for a in fr["aliases"]}
+            self.frames.append(nf)
 
     @property
     def blocks(self):
@@ -442,7 +592,7 @@ class Body:
                 out.append(p.local)
         return out
 
-    def _thread_returns(self, ret_local, dest, target, b0, b1):
+    def _thread_returns(self, ret_local, dest, target, b0, b1, ready=None):
         """Jump threading for an inlined helper whose result is immediately discriminated by the caller (`helper()?`, `match helper()`,
         `if let .. = helper()`, `if helper()`): a callee path that ends by constructing a known variant / constant goes straight to the
         caller's arm for that variant. Without it every callee path merges at the helper's return and the caller's arm is dominated by
@@ -452,6 +602,46 @@ class Body:
         D = dest.local
         blocks = self._blocks
         T = blocks[target]
+        is_async = ready is not None
+        if is_async:
+            # `helper().await?` / `match helper().await {..}`: from the Ready arm follow the copies of the payload to the block that
+            # discriminates it
+            pay = set()
+            cur = target
+            T = None
+            for _ in range(8):
+                B = blocks[cur]
+                for st in B.stmts:
+                    if st.kind == "assign" and st.rv.get("k") == "discr" and st.rv["p"].is_local() and st.rv["p"].local in pay and st is B.stmts[-1]:
+                        continue
+                    if st.kind != "assign" or st.rv.get("k") != "use" or st.rv["a"].is_const() or not st.dest.is_local():
+                        return
+                    src = st.rv["a"].place
+                    if (src.local == D and src.proj == ("@Ready", ".0")) or (src.is_local() and src.local in pay):
+                        pay.add(st.dest.local)
+                    else:
+                        return
+                if B.term.kind in ("goto", "drop"):
+                    cur = B.term.d["t"]
+                    continue
+                T = B
+                break
+            if T is None:
+                return
+            D = None
+            t_ = T.term
+            if t_.kind == "call" and len(t_.d["args"]) == 1 and not t_.d["args"][0].is_const() and t_.d["args"][0].place.is_local() and t_.d["args"][0].place.local in pay:
+                D = t_.d["args"][0].place.local
+            elif t_.kind == "switch" and T.stmts and T.stmts[-1].rv.get("k") == "discr":
+                D = T.stmts[-1].rv["p"].local
+                T = Block(T.idx, T.stmts[-1:], T.term, T.cleanup)
+            elif t_.kind == "switch" and not t_.d["a"].is_const() and t_.d["a"].place.is_local() and t_.d["a"].place.local in pay:
+                D = t_.d["a"].place.local
+                T = Block(T.idx, [], T.term, T.cleanup)
+            if D is None:
+                return
+            if t_.kind == "call":
+                T = Block(T.idx, [], T.term, T.cleanup)
         arms = None  # variant name / bool -> block
         kind = None
         def only_trivial(stmts, allow=()):
@@ -487,10 +677,26 @@ class Body:
         if not arms:
             return
         # the copied return block(s): `D = move ret_local; goto target`
-        rets = [b for b in blocks[b0:b1] if b.term.kind == "goto" and b.term.d["t"] == target and b.stmts and b.stmts[-1].dest == dest and b.stmts[-1].rv.get("k") == "use" and not b.stmts[-1].rv["a"].is_const() and b.stmts[-1].rv["a"].place.local == ret_local and len(b.stmts) == 1]
+        if is_async:
+            rets = [b for b in blocks[b0:b1] if b.term.kind == "goto" and b.term.d["t"] == target and len(b.stmts) == 1 and b.stmts[0].rv.get("k") == "agg" and b.stmts[0].rv.get("var") == "Ready" and b.stmts[0].dest.is_local() and b.stmts[0].dest.local == dest.local]
+        else:
+            rets = [b for b in blocks[b0:b1] if b.term.kind == "goto" and b.term.d["t"] == target and b.stmts and b.stmts[-1].dest == dest and b.stmts[-1].rv.get("k") == "use" and not b.stmts[-1].rv["a"].is_const() and b.stmts[-1].rv["a"].place.local == ret_local and len(b.stmts) == 1]
+
+        def ret_stmt(line, macros):
+            if is_async:
+                return Stmt(dest, {"k": "agg", "ak": "enum", "adt": "std::task::Poll", "var": "Ready", "fields": ["0"], "ops": [Operand("move", Place(ret_local))]}, line, macros)
+            return Stmt(dest, {"k": "use", "a": Operand("move", Place(ret_local))}, line, macros)
         retset = {b.idx for b in rets}
         if not retset:
             return
+        # scope-exit chains (statement-free goto/drop blocks) in front of the return block count as the return block
+        grew = True
+        while grew:
+            grew = False
+            for b in blocks[b0:b1]:
+                if b.idx not in retset and not b.cleanup and not b.stmts and b.term.kind in ("goto", "drop") and b.term.d["t"] in retset:
+                    retset.add(b.idx)
+                    grew = True
         for P in blocks[b0:b1]:
             if P.cleanup:
                 continue
@@ -508,11 +714,11 @@ class Body:
                         break
                 if variant is None or variant not in arms:
                     continue
-                n = Block(len(blocks), [Stmt(dest, {"k": "use", "a": Operand("move", Place(ret_local))}, P.term.line, P.term.macros)], Term("goto", {"t": arms[variant], "false": False}, P.term.line, P.term.macros), False)
+                n = Block(len(blocks), [ret_stmt(P.term.line, P.term.macros)], Term("goto", {"t": arms[variant], "false": False}, P.term.line, P.term.macros), False)
                 blocks.append(n)
                 P.term = Term("goto", {"t": n.idx, "false": False}, P.term.line, P.term.macros)
             elif tk == "call" and P.term.d.get("t") in retset and P.term.d["d"].is_local() and P.term.d["d"].local == ret_local and (P.term.d.get("f") or "").endswith("from_residual") and "from_residual" in arms:
-                n = Block(len(blocks), [Stmt(dest, {"k": "use", "a": Operand("move", Place(ret_local))}, P.term.line, P.term.macros)], Term("goto", {"t": arms["from_residual"], "false": False}, P.term.line, P.term.macros), False)
+                n = Block(len(blocks), [ret_stmt(P.term.line, P.term.macros)], Term("goto", {"t": arms["from_residual"], "false": False}, P.term.line, P.term.macros), False)
                 blocks.append(n)
                 d = dict(P.term.d)
                 d["t"] = n.idx
@@ -754,6 +960,9 @@ class Program:
                                 still.add(o.const["fn"])  # taken as a function value: stays a body
         for p in sorted(self.new_fns - still):
             self.absorbed[p] = self.bodies.pop(p)
+            cp = p + "::{closure#0}"
+            if cp in self.coroutine_paths and cp in self.bodies:
+                self.absorbed[cp] = self.bodies.pop(cp)
 
     def fix_path(self, p):
         if p is None:
@@ -1058,9 +1267,37 @@ class Sym:
             e = self.local_expr(src, depth + 1, stack + (l,))
             self.memo[l] = e
             return e
+        if len(defs) > 1 and l not in stack and any(f["ret"] == l for f in getattr(b, "frames", ())):
+            # the return slot of an inlined helper: one alternative per return path
+            alts = tuple(self.def_expr(blk, si, depth + 1, stack + (l,)) for blk, si in defs)
+            e = alts[0] if all(a == alts[0] for a in alts) else ("phi", alts)
+            self.memo[l] = e
+            return e
+        if len(defs) > 1 and not b.partial_writes(l) and self._same_defs(defs):
+            # identical hand-over statements (`poll_result = Poll::Ready(move ret)` once per threaded return of an inlined async helper)
+            blk, si = defs[0]
+            e = self.def_expr(blk, si, depth + 1, stack + (l,))
+            self.memo[l] = e
+            return e
         e = ("var", b.local_name(l) or "_%d" % l)
         self.memo[l] = e
         return e
+
+    def _same_defs(self, defs):
+        b = self.body
+        sig = None
+        for blk, si in defs:
+            if si == "term":
+                return False
+            rv = b.blocks[blk].stmts[si].rv
+            if rv["k"] != "agg" or any(o.is_const() or not o.place.is_local() for o in rv["ops"]):
+                return False
+            s_ = (rv.get("ak"), rv.get("adt"), rv.get("var"), tuple(o.place.local for o in rv["ops"]))
+            if sig is None:
+                sig = s_
+            elif sig != s_:
+                return False
+        return sig is not None
 
     def _live_defs(self, l):
         b = self.body
@@ -1159,14 +1396,29 @@ class Sym:
                 e = self.def_expr(vd[0], vd[1], depth + 1, stack + (p.local,))
         if e is None:
             e = self.local_expr(p.local, depth, stack)
-        if e[0] == "phi":
-            rest = p.proj
-            return ("phi", tuple(self._project(a, rest) for a in e[1]))
         return self._project(e, p.proj)
 
     def _project(self, e, proj):
-        for pr in proj:
+        for i_, pr in enumerate(proj):
             if pr == "*":
+                continue
+            if e[0] == "phi" and pr.startswith("@"):
+                # a downcast only observes the alternatives built as that variant
+                keep = []
+                for a in e[1]:
+                    if a[0] == "agg" and a[2] != pr[1:]:
+                        continue
+                    if a[0] == "call" and (a[1] or "").endswith("from_residual") and pr[1:] in ("Ok", "Some"):
+                        continue
+                    keep.append(self._project(a, (pr,)))
+                if not keep:
+                    e = ("variant", e, pr[1:])
+                else:
+                    e = keep[0] if all(k_ == keep[0] for k_ in keep) else ("phi", tuple(keep))
+                continue
+            if e[0] == "phi" and pr.startswith("."):
+                keep = [self._project(a, (pr,)) for a in e[1]]
+                e = keep[0] if all(k_ == keep[0] for k_ in keep) else ("phi", tuple(keep))
                 continue
             if pr.startswith("."):
                 name = pr[1:]
@@ -1181,7 +1433,7 @@ class Sym:
                 elif e[0] == "awaitv" and name == "0":
                     e = ("await", e[1])
                 elif e[0] == "tryv" and name == "0":
-                    e = ("try", e[1])
+                    e = _try_of(e[1])
                 elif e[0] == "tryerr" and name == "0":
                     e = ("tryerr", e[1])
                 else:
@@ -1193,6 +1445,11 @@ class Sym:
                     e = ("tryv" if pr[1:] == "Continue" else "tryerr", e[2][0])
                 elif e[0] == "agg" and e[2] == pr[1:]:
                     pass
+                elif e[0] == "call" and len(e[2]) == 2 and pr[1:] == "Some" and (e[1] or "").endswith("option::Option::zip"):
+                    # (a.zip(b) as Some).0 == ((a as Some).0, (b as Some).0)
+                    e = ("agg", "std::option::Option", "Some", (("0", ("tuple", tuple(self._project(x, ("@Some", ".0")) for x in e[2]))),))
+                elif e[0] == "var" and self._var_variant(e, pr[1:]) is not None:
+                    e = self._var_variant(e, pr[1:])
                 elif e[0] == "call" and len(e[2]) == 2 and pr[1:] in ("Some", "Ok") and _MAP_LIKE.search(e[1] or "") and (e[1] or "").endswith("::map") and e[2][1][0] == "closure":
                     # (x.map(|v| f(v)) as Some).0  ==  f((x as Some).0)
                     summ = self.body.prog.inline_summary(e[2][1][1], self.inline_level + 1, closure=True)
@@ -1208,6 +1465,27 @@ class Sym:
             else:
                 e = ("proj?", e)
         return e
+
+    def _var_variant(self, e, variant):
+        """`(v as V)` where v is a variable built as a literal enum value on every path and as V on exactly one (reached through a
+        tuple or another projection, so place_expr's own variant lookup did not see it): that construction."""
+        key = (e[1], variant)
+        memo = self.__dict__.setdefault("_vv_memo", {})
+        if key in memo:
+            return memo[key]
+        memo[key] = None
+        b = self.body
+        name = e[1]
+        locs = [int(name[1:])] if name.startswith("_") and name[1:].isdigit() else b.local_by_name(name)
+        out = None
+        if len(locs) == 1 and not (1 <= locs[0] <= b.argc):
+            vd = self._variant_def(locs[0], variant)
+            if vd is not None and not isinstance(vd, list):
+                x = self.def_expr(vd[0], vd[1], 1, (locs[0],))
+                if x[0] == "agg" and x[2] == variant:
+                    out = x
+        memo[key] = out
+        return out
 
     def operand_expr(self, o, depth=0, stack=()):
         if o.kind == "const":
@@ -1248,6 +1526,28 @@ class Sym:
                 return ("closure", rv["def"], ops)
             return ("tuple", ops)
         return ("other", rv.get("s"))
+
+
+def _try_of(x):
+    """`x?` where x is a phi over the return paths of an inlined helper: the value continues only from the Ok/Some paths."""
+    if x[0] == "awaitv":
+        x = ("await", x[1])
+    inner = x[1] if x[0] == "await" else x
+    if inner[0] != "phi":
+        return ("try", x)
+    out = []
+    for a in inner[1]:
+        if a[0] == "agg" and a[2] in ("Ok", "Some"):
+            out.append(dict(a[3]).get("0"))
+        elif a[0] == "agg" and a[2] in ("Err", "None"):
+            continue
+        elif a[0] == "call" and (a[1] or "").endswith("from_residual"):
+            continue
+        else:
+            out.append(("try", a))
+    if not out:
+        return ("try", x)
+    return out[0] if all(o == out[0] for o in out) else ("phi", tuple(out))
 
 
 def capture_expr(name):
@@ -1566,6 +1866,18 @@ def _enum_alts(prog, g):
                 if inner[0] == "agg" and not inner[3] and _fieldless(prog, inner[1], inner[2]):
                     out.append(Guard("is", a=("field", ("variant", x, "Some"), "0"), name=inner[2], enum=inner[1], edge=g.edge, line=g.line, macros=g.macros))
                 return out
+    if g.kind == "is" and g.enum == "try" and g.name in ("Continue", "Break") and g.a is not None:
+        # `x?` continues exactly when x is Some / Ok (which of the two is fixed by x's type; a rule names the one that applies)
+        names = ("Some", "Ok") if g.name == "Continue" else ("None", "Err")
+        return [Guard("is", a=g.a, name=n_, enum=None, edge=g.edge, line=g.line, macros=g.macros) for n_ in names]
+    if g.kind == "int" and isinstance(g.name, int):
+        # `match x { 7 => .. }` and `if x == 7` are one fact
+        return [Guard("rel", op="Eq", a=g.a, b=("const", g.name, None), edge=g.edge, line=g.line, macros=g.macros)]
+    if g.kind == "intnot" and len(g.name) == 1 and isinstance(g.name[0], int):
+        return [Guard("rel", op="Ne", a=g.a, b=("const", g.name[0], None), edge=g.edge, line=g.line, macros=g.macros)]
+    if g.kind == "is" and g.name == "Some" and g.a is not None and g.a[0] == "call" and len(g.a[2]) == 2 and (g.a[1] or "").endswith("option::Option::zip"):
+        # a.zip(b) is Some  <=>  a is Some and b is Some
+        return [Guard("is", a=x, name="Some", enum="std::option::Option", edge=g.edge, line=g.line, macros=g.macros) for x in g.a[2]]
     if g.kind == "is" and g.enum and g.enum != "try" and _fieldless(prog, g.enum, g.name):
         return [Guard("rel", op="Eq", a=g.a, b=("agg", g.enum, g.name, ()), edge=g.edge, line=g.line, macros=g.macros)]
     return []
@@ -1717,6 +2029,7 @@ class GuardIndex:
                         out.append(gs[0])
                         out.extend(gs[0].alts())
                         out.extend(self._resolve_bool_temp(gs[0], _depth))
+                        out.extend(self._resolve_variant_temp(gs[0], _depth))
                     else:
                         # several values lead here: a disjunction, keep as 'oneof'
                         g0 = gs[0]
@@ -1729,12 +2042,142 @@ class GuardIndex:
         out = [g]
         out.extend(g.alts())
         out.extend(self._resolve_bool_temp(g, 0))
+        out.extend(self._resolve_variant_temp(g, 0))
         return out
+
+    def _tested_local(self, g, locs):
+        """Several locals share the guard's variable name (shadowing): the one the guard's switch actually reads."""
+        body = self.body
+        if not g.edge:
+            return locs
+        t = body.blocks[g.edge[0]].term
+        if t.kind != "switch" or t.d["a"].is_const():
+            return locs
+        cur = t.d["a"].place.local
+        for _ in range(6):
+            if cur in locs:
+                return [cur]
+            defs = body.defs.get(cur, [])
+            if len(defs) != 1 or defs[0][1] == "term":
+                break
+            rv = body.blocks[defs[0][0]].stmts[defs[0][1]].rv
+            if rv["k"] == "use" and not rv["a"].is_const() and rv["a"].place.is_local():
+                cur = rv["a"].place.local
+            elif rv["k"] == "un" and not rv["a"].is_const() and rv["a"].place.is_local():
+                cur = rv["a"].place.local
+            else:
+                break
+        return locs
+
+    def _resolve_bool_tuple(self, g, depth):
+        """`let (n, flag) = match r { Ok(c) => (c, true), Err(c) => (c, false) }; if flag ..`: the flag is a field of a tuple that every
+        arm builds with a constant there; the guards dominating the unique arm that stores this truth value hold."""
+        body = self.body
+        name, k = g.a[1][1], int(g.a[2])
+        locs = [int(name[1:])] if name.startswith("_") and name[1:].isdigit() else body.local_by_name(name)
+        extra = []
+        live = body.live_blocks()
+        for l in locs:
+            defs = [d for d in body.defs.get(l, []) if d[0] in live]
+            if len(defs) < 2 or body.partial_writes(l):
+                continue
+            matching = []
+            ok = True
+            for blk, si in defs:
+                if si == "term":
+                    ok = False
+                    break
+                rv = body.blocks[blk].stmts[si].rv
+                if rv["k"] != "agg" or rv.get("ak") != "tuple" or k >= len(rv["ops"]) or not rv["ops"][k].is_const() or rv["ops"][k].value() not in (0, 1):
+                    ok = False
+                    break
+                if bool(rv["ops"][k].value()) == g.truth:
+                    matching.append(blk)
+            if ok and len(matching) == 1:
+                extra.extend(self.dominating(matching[0], _depth=depth + 1))
+        return extra
+
+    def _leads_trivially(self, frm, to):
+        cur = frm
+        for _ in range(4):
+            if cur == to:
+                return True
+            b = self.body.blocks[cur]
+            if b.stmts or b.term.kind != "goto":
+                return False
+            cur = b.term.d["t"]
+        return cur == to
+
+    def _resolve_variant_temp(self, g, depth):
+        """If g is `var is V` for a local that every live definition builds as a literal enum value (`let repeated = match .. { .. =>
+        Some(x), _ => None }`) and exactly one of them builds V, the guards dominating that definition hold as well."""
+        if depth > 4 or g.kind != "is" or g.a is None or g.a[0] not in ("var", "phi"):
+            return []
+        body = self.body
+        if g.a[0] == "phi":
+            # the return slot of an inlined helper (Sym.local_expr gives it as a phi over the helper's return paths)
+            locs = [fr["ret"] for fr in getattr(body, "frames", ()) if self.sym.memo.get(fr["ret"]) == g.a]
+        else:
+            name = g.a[1]
+            if name.startswith("_") and name[1:].isdigit():
+                locs = [int(name[1:])]
+            else:
+                locs = body.local_by_name(name)
+        extra = []
+        live = body.live_blocks()
+        for l in locs:
+            if 1 <= l <= body.argc or body.partial_writes(l):
+                continue
+            defs = [d for d in body.defs.get(l, []) if d[0] in live]
+            if len(defs) < 2:
+                continue
+            matching = []
+            computed = []
+            ok = True
+            for blk, si in defs:
+                if si == "term":
+                    t_ = body.blocks[blk].term
+                    if t_.kind == "call" and (t_.d.get("f") or "").endswith("from_residual") and g.name in ("Some", "Ok"):
+                        continue  # `?` leaving with None / Err
+                    if t_.kind == "call" and not body.blocks[blk].cleanup:
+                        computed.append((blk, si))
+                        continue
+                    ok = False
+                    break
+                rv = body.blocks[blk].stmts[si].rv
+                if rv["k"] == "agg" and rv.get("ak") == "enum":
+                    if rv.get("var") == g.name:
+                        matching.append(blk)
+                elif rv["k"] == "use" and not rv["a"].is_const():
+                    computed.append((blk, si))
+                else:
+                    ok = False
+                    break
+            if ok and len(matching) == 1 and not computed:
+                extra.extend(self.dominating(matching[0], _depth=depth + 1))
+            elif ok and not matching and len(computed) == 1:
+                # `let m = match s { Some(s) => s.check(..), None => Err(E) }; match m { Ok(()) => ..`: m can only be V through the
+                # computed arm, so that arm's guards hold and so does `computed value is V`
+                blk, si = computed[0]
+                extra.extend(self.dominating(blk, _depth=depth + 1))
+                try:
+                    e = self.sym.def_expr(blk, si)
+                    if e != g.a:
+                        g2 = Guard("is", a=e, name=g.name, enum=g.enum, edge=g.edge, line=g.line, macros=g.macros)
+                        extra.append(g2)
+                        extra.extend(self._resolve_variant_temp(g2, depth + 1))
+                except Exception:
+                    pass
+        return extra
 
     def _resolve_bool_temp(self, g, depth):
         """If g is `var == truth` for a bool local assigned constants in several blocks, the
         guards dominating the unique block that assigns that truth value also hold."""
-        if depth > 4 or g.kind != "bool" or g.a[0] != "var":
+        if depth > 4 or g.kind != "bool":
+            return []
+        if g.a[0] == "field" and g.a[1][0] == "var" and g.a[2].isdigit():
+            return self._resolve_bool_tuple(g, depth)
+        if g.a[0] != "var":
             return []
         body = self.body
         # find the local
@@ -1744,6 +2187,8 @@ class GuardIndex:
             locs = [int(name[1:])]
         else:
             locs = body.local_by_name(name)
+        if len(locs) > 1:
+            locs = self._tested_local(g, locs)
         extra = []
         for l in locs:
             defs = [d for d in body.defs.get(l, []) if d[0] in body.live_blocks()]
@@ -1769,6 +2214,22 @@ class GuardIndex:
             if ok and not matching and len(computed) == 1 and len(defs) > 1:
                 # the only way to hold this truth value is the computed arm: what dominates it holds, and so does `expr == truth`
                 blk, si = computed[0]
+                # ... and no overriding constant (`if c { flag = false }` after the computed value) was stored since: the branch that
+                # stores it was not taken, so the guard of the opposite edge of that two-way branch holds
+                U = g.edge[0] if g.edge else None
+                if U is not None:
+                    for cb, csi in defs:
+                        if (cb, csi) == (blk, si):
+                            continue
+                        for S, lst in self.by_switch.items():
+                            if len({t for t, _ in lst}) != 2 or len(lst) != 2:
+                                continue
+                            for tgt, gg in lst:
+                                if self._leads_trivially(tgt, cb) and body.edge_dominates((S, tgt), cb) and body.block_dominates(S, U) and body.block_dominates(blk, S):
+                                    for t2, g2 in lst:
+                                        if t2 != tgt:
+                                            extra.append(g2)
+                                            extra.extend(g2.alts())
                 extra.extend(self.dominating(blk, _depth=depth + 1))
                 try:
                     e = self.sym.def_expr(blk, si)
